@@ -51,6 +51,12 @@ def injections(ver, o, rng):
             oo = copy.deepcopy(o)
             corrupt.get(oo, path)[pname] = val
             yield "custom-property" + ("" if pname.startswith("x_") else "-unprefixed"), section, oo
+        # a custom property without a value is not part of the object: whatever strict mode says to the attempt, the flag of
+        # the lenient result must agree with a strict parse of what was serialised
+        for val in (None, []):
+            oo = copy.deepcopy(o)
+            corrupt.get(oo, path)["x_custom_prop"] = val
+            yield "custom-property-without-value", section, oo
     for s in sl:
         k = s.kind["k"]
         v = corrupt.get(o, s.path)
@@ -82,6 +88,35 @@ def injections(ver, o, rng):
             oo = copy.deepcopy(o)
             corrupt.get(oo, s.path)["x-unregistered-ext"] = {"some_prop": 1}
             yield "unregistered-extension", s.section, oo
+    EDEF = "extension-definition--d83fce45-ef58-4c6c-a3f4-1fbc32e98c6e"
+    for path, tbl_, section in objects:
+        host = corrupt.get(o, path)
+        if not isinstance(host, dict):
+            continue
+        if ver == "2.0" and "extensions" not in host:
+            # STIX 2.0 has no extension definitions: an unregistered toplevel-property-extension entry excuses nothing there
+            oo = copy.deepcopy(o)
+            corrupt.get(oo, path)["extensions"] = {EDEF: {"extension_type": "toplevel-property-extension"}}
+            corrupt.get(oo, path)["x_smuggled"] = 1
+            yield "toplevel-extension-claim-in-2.0", section, oo
+        # keys that are constructor switches rather than properties, arriving as data
+        if section.startswith(("embedded", "marking", "extension")):
+            oo = copy.deepcopy(o)
+            corrupt.get(oo, path)["x_custom_prop"] = "v"
+            corrupt.get(oo, path)["allow_custom"] = True
+            yield "custom-property-with-allow-custom-key", section, oo
+    for s in sl:
+        if s.kind["k"] == "ref" and isinstance(corrupt.get(o, s.path), str) and "observable" not in s.section:
+            # a reference to a known type that the property's rule excludes: admitted, if at all, only as custom content
+            cur_t = corrupt.get(o, s.path).split("--")[0]
+            for other in ("marking-definition", "bundle", "language-content" if ver == "2.1" else "bundle"):
+                if other == cur_t:
+                    continue
+                oo = copy.deepcopy(o)
+                corrupt.setp(oo, s.path, "%s--%s" % (other, V.uuid_text(rng, 4)))
+                if validator.validate(oo, ver):       # only where the specification really excludes that type here
+                    yield "reference-to-excluded-known-type", s.section, oo
+                break
     tbl = m.types[o["type"]]
     if "extensions" in tbl["by_name"] and "extensions" not in o:
         oo = copy.deepcopy(o)
@@ -133,6 +168,8 @@ def instance_injections(ver, o, rng):
         elif kind == "member":
             from stix2 import registry
             cls = registry.class_for_type(name, ver, "objects") or registry.class_for_type(name, ver, "observables")
+        elif kind == "marking":
+            cls = {"statement": mod.StatementMarking, "tlp": mod.TLPMarking}.get(name)
         if cls is None:
             continue
         kw = copy.deepcopy(cur)
@@ -263,6 +300,8 @@ def wl_inject(ctx, rng, i):
             case = {"version": ver, "type": t, "site": site, "section": section, "input": oo}
             # policy-independent precondition for clause (a): the injected thing is custom by the property's own list
             for rname, fn in strict_routes(ver, t, oo, tmp):
+                if site == "custom-property-without-value":
+                    break          # the object would not contain the property: only the flag clause is judged for this site
                 if ctx.tier == "quick" and n % 3 and rname not in ("parse-text", "constructor"):
                     continue
                 st, r = run(fn)
@@ -349,7 +388,37 @@ def wl_registered(ctx, rng, i):
     ctx.count("registered_cases")
 
 
+def wl_unknown(ctx, rng, i):
+    """An unregistered object type under strict parse: refused, unless an extension that defines a new object type vouches for it
+    (the library's documented pass-through)."""
+    import stix2
+    ver = ["2.1", "2.0"][i % 2]
+    u = V.uuid_text(rng, 4)
+    o = {"type": "x-stixmon-unknown", "id": "x-stixmon-unknown--" + u, "created": "2020-01-01T00:00:00.000Z", "modified": "2020-01-01T00:00:00.000Z", "foo": 1}
+    if ver == "2.1":
+        o["spec_version"] = "2.1"
+    key = rng.choice(["extension-definition--" + V.uuid_text(rng, 4), "extension-definition--not-a-uuid", "extension-definition--", "x-some-ext"])
+    body = rng.choice([{}, {"extension_type": ""}, {"extension_type": "made-up"}, {"extension_type": "property-extension"}, {"extension_type": "toplevel-property-extension"},
+                       {"extension_type": "new-sdo"}, {"extension_type": "new-sco"}, {"extension_type": "new-sro"}, {"extension_type": None}, {"some": "thing"}])
+    variant = rng.choice(["none", "ext", "ext"])
+    if variant == "ext":
+        o["extensions"] = {key: body}
+    vouched = variant == "ext" and key.startswith("extension-definition--") and body.get("extension_type") in ("new-sdo", "new-sco", "new-sro")
+    case = {"version": ver, "input": o, "vouched_for_by_new_object_extension": vouched}
+    for rname, fn in (("parse-dict", lambda: stix2.parse(copy.deepcopy(o), allow_custom=False)), ("parse-text", lambda: stix2.parse(json.dumps(o), allow_custom=False)),
+                      ("parse-dict/version", lambda: stix2.parse(copy.deepcopy(o), allow_custom=False, version=ver)),
+                      ("bundle-member", lambda: stix2.parse({"type": "bundle", "id": "bundle--" + u, "objects": [copy.deepcopy(o)]}, allow_custom=False))):
+        st, r = run(fn)
+        ctx.ev()
+        ctx.count("unknown_type_attempts")
+        ctx.nontrivial("unknown", ver, variant, key.split("--")[0], json.dumps(body), rname)
+        if st == "returned" and not vouched:
+            ctx.violation("custom-admitted-in-strict-mode:unregistered-type", "an object of an unregistered type was passed through by %s with customisation disallowed (extensions: %s)" % (rname, json.dumps(o.get("extensions"))),
+                          dict(case, entry_point=rname))
+
+
 WORKLOADS = [
+    Workload("unknown-type", wl_unknown, quick=80, thorough=2000),
     Workload("inject", wl_inject, quick=lambda: len(BASES) * 2, thorough=lambda: len(BASES) * 200),
     Workload("registered", wl_registered, quick=60, thorough=6000),
 ]
